@@ -165,21 +165,29 @@ func runC18(c *Ctx) {
 // management calls (incl. Enforcer.ClearPolicy) to it instead of changing its own model
 type nopDispatcher struct{ calls []string }
 
-func (d *nopDispatcher) AddPolicies(sec string, ptype string, rules [][]string) error { return nil }
+func (d *nopDispatcher) AddPolicies(sec string, ptype string, rules [][]string) error {
+	d.calls = append(d.calls, "AddPolicies")
+	return nil
+}
 func (d *nopDispatcher) RemovePolicies(sec string, ptype string, rules [][]string) error {
+	d.calls = append(d.calls, "RemovePolicies")
 	return nil
 }
 func (d *nopDispatcher) RemoveFilteredPolicy(sec string, ptype string, fieldIndex int, fieldValues ...string) error {
+	d.calls = append(d.calls, "RemoveFilteredPolicy")
 	return nil
 }
 func (d *nopDispatcher) ClearPolicy() error { d.calls = append(d.calls, "ClearPolicy"); return nil }
 func (d *nopDispatcher) UpdatePolicy(sec string, ptype string, oldRule, newRule []string) error {
+	d.calls = append(d.calls, "UpdatePolicy")
 	return nil
 }
 func (d *nopDispatcher) UpdatePolicies(sec string, ptype string, oldrules, newRules [][]string) error {
+	d.calls = append(d.calls, "UpdatePolicies")
 	return nil
 }
 func (d *nopDispatcher) UpdateFilteredPolicies(sec string, ptype string, oldRules [][]string, newRules [][]string) error {
+	d.calls = append(d.calls, "UpdateFilteredPolicies")
 	return nil
 }
 
